@@ -203,6 +203,8 @@ def c16(res: CheckResult) -> None:
                   "derived is blamed", list(DF.fam_inv_lists(res.tier, rng)), ic, verdicts=True, rng=rng)
     def_unit(res, "overrides carrying foreign functools.wraps decorators in hierarchies: inherited groups first, the error "
                   "of the last group tried", list(DF.fam_foreign_hier(res.tier, rng)), ic, verdicts=True, rng=rng)
+    def_unit(res, "property accessors along hierarchies: inherited postconditions before the own ones, the first falsy one "
+                  "is blamed", list(DF.fam_accessors(res.tier, rng)), ic, verdicts=True, rng=rng)
     setattr_progs = [p for p in F.fam_inv(res.tier, rng) if any(f["kind"] == "setattr" for f in p["fn"])]
     rng.shuffle(setattr_progs)
     call_unit(res, "assignments under SETATTR invariants (own __setattr__): invariants-before, body, invariants-after",
